@@ -376,6 +376,7 @@ func (m *Message) UnmarshalJSON(b []byte) error {
 		}
 
 		if err := json.Unmarshal(rawMsg, field); err != nil {
+			m.discardFailedWrite(i)
 			return utils.NewSafeErrorf(err, "failed to unmarshal field %v", id)
 		}
 
@@ -479,6 +480,7 @@ func (m *Message) Marshal(v interface{}) error {
 		}
 
 		if err := messageField.Marshal(dataField.Interface()); err != nil {
+			m.discardFailedWrite(indexTag.ID)
 			return fmt.Errorf("failed to set value to field %d: %w", indexTag.ID, err)
 		}
 
@@ -486,6 +488,20 @@ func (m *Message) Marshal(v interface{}) error {
 	}
 
 	return nil
+}
+
+// discardFailedWrite re-creates a field that is not set after a write into
+// it failed part way (a composite field keeps the subfields written before
+// the failure): a field that is not set holds nothing, so nothing of the
+// failed write comes back when the field is populated later. It assumes
+// that the mutex is already locked by the caller.
+func (m *Message) discardFailedWrite(id int) {
+	if _, ok := m.fieldsMap[id]; ok {
+		return
+	}
+	if fieldSpec, ok := m.GetSpec().Fields[id]; ok {
+		m.fields[id] = createMessageField(fieldSpec)
+	}
 }
 
 // Unmarshal populates v struct fields with message field values. It traverses
